@@ -202,10 +202,14 @@ pub fn strm(f: &[&str]) -> String {
 }
 
 /// `drv <script> <input hex>`: the standard caller protocol over `StripStream::write`
-pub fn drv(f: &[&str]) -> String {
+pub fn drv(f: &[&str], through_auto: bool) -> String {
     let log = Rc::new(RefCell::new(Log::default()));
     let inner: Box<dyn Write> = Box::new(Scripted { script: parse_script(f[0]), log: log.clone() });
-    let mut s = anstream::StripStream::new(inner);
+    let mut s: Box<dyn Write> = if through_auto {
+        Box::new(anstream::AutoStream::new(inner, anstream::ColorChoice::Never))
+    } else {
+        Box::new(anstream::StripStream::new(inner))
+    };
     let data = unhex(f[1]);
     let mut buf = &data[..];
     let mut outcome = "ok".to_owned();
@@ -236,7 +240,8 @@ pub fn drv(f: &[&str]) -> String {
 pub fn dispatch(kind: &str, f: &[&str]) -> Option<String> {
     Some(match kind {
         "strm" => strm(f),
-        "drv" => drv(f),
+        "drv" => drv(f, false),
+        "drvn" => drv(f, true),
         _ => return None,
     })
 }
